@@ -32,7 +32,7 @@ ASSUMPTIONS = [
     "touch a pole are monotone in longitude)",
     "enclosure is checked at 1e-9 rad, tightness at 1e-8 rad; longitudes are compared modulo 2 pi",
 ]
-BOUNDS = {"quick": "n-gons: radii {2,10,30,44} x 20 centres x 1 phase; lattice faces on 2 placements; all start corners", "thorough": "n-gons: 7 radii x 20 centres x 3 phases; every 3-/4-subset and every convex 5-subset of the 4x4 lattice on 6 placements; all start corners"}
+BOUNDS = {"quick": "n-gons: radii {2,10,30,44} x 20 centres x 1 phase; lattice faces on 2 placements; large triangles (edges up to ~150 degrees) from a 5x5 coarse lattice, index sum = 0 mod 3, on 2 placements; all start corners", "thorough": "n-gons: 7 radii x 20 centres x 3 phases; every 3-/4-subset and every convex 5-subset of the 4x4 lattice on 6 placements; all start corners; every large convex triangle and every 5th convex quad of the coarse lattice"}
 MARG = 1e-7
 CENTRES = [
     (0.0, 90.0), (0.0, -90.0), (30.0, 89.0), (-100.0, -88.5), (77.0, 75.0), (-20.0, -70.0),  # near / on poles (small radii: near; large radii: enclosing, off-centre)
@@ -96,7 +96,7 @@ def _oracle(P):
             m = min(float(np.dot(np.cross(a, t), nh)), float(np.dot(np.cross(t, b), nh)))
             if abs(m) < MARG:
                 return None
-            if m > 0 and np.dot(a, t) > -0.5:
+            if m > 0:  # t lies strictly inside the minor arc a..b (both partial angles in (0, pi) and the edge is shorter than pi)
                 store.append(sign * math.asin(math.sqrt(max(0.0, 1.0 - nh[2] ** 2))))
                 tags.add("apex-inside-edge")
     lat_max = max(lat_cands_max)
@@ -152,6 +152,23 @@ def _faces(tier):
                 if k == 5 and not all(np.dot(np.cross(P[i], P[(i + 1) % k]), P[(i + 2) % k]) > 1e-9 for i in range(k)):
                     continue  # pentagons: convex ones only (3-/4-subsets are kept as before)
                 yield {"fam": "lattice", "place": pi, "comb": list(comb)}, P
+    # large faces: corners on a coarse lon/lat lattice spanning 140 degrees of longitude and both hemispheres (edges up to ~150 degrees,
+    # equator-crossing edges whose apex lies inside the edge), centred away from the prime meridian and across the antimeridian
+    big = [(-70.0 + 35.0 * i + 1.3 * j, (-50.0, -20.0, 5.0, 30.0, 60.0)[j] + 0.7 * i) for i in range(5) for j in range(5)]
+    for pi, lon0 in enumerate((95.0, 178.0)):
+        pts = [meshes.lonlat_to_xyz(lon0 + a, b) for a, b in big]
+        for k in ((3,) if tier == "quick" else (3, 4)):
+            for comb in itertools.combinations(range(25), k):
+                if (sum(comb) % 3 != 0) if tier == "quick" else (k == 4 and sum(comb) % 5 != 0):
+                    continue
+                P = np.array([pts[i] for i in comb])
+                c = sph.unit(P.mean(axis=0))
+                ang = np.arctan2(np.dot(P, np.cross(c, [0, 0, 1.0])), np.dot(P, np.cross(np.cross(c, [0, 0, 1.0]), c)))
+                P = P[np.argsort(-ang)]
+                tp = [np.dot(np.cross(P[i], P[(i + 1) % k]), P[(i + 2) % k]) for i in range(k)]
+                if not (all(t > 1e-3 for t in tp) or all(t < -1e-3 for t in tp)):
+                    continue  # strictly convex faces only
+                yield {"fam": "large", "place": pi, "comb": list(comb)}, P
     # aligned faces: a corner exactly on lon = 0 / 180 / the equator, straddling that meridian
     for lon0 in (0.0, 180.0):
         for sgn in (1.0, -1.0):
